@@ -123,6 +123,9 @@ Definition ns_load (s : nsstate) (r : record) : nsstate :=
   | _ => s
   end.
 
+(** InstallSnapshot on a RUNNING node: the records of the leader's snapshot are loaded over the live state *)
+Definition ns_install (follower leader : nsstate) : nsstate := fold_left ns_load (ns_snapshot leader) follower.
+
 (** NamespaceQueryReq::List as a set: id -> (name, flag) (the order of the list is not
     preserved by a restart: build_snapshot iterates a HashMap) *)
 Definition ns_reload (s : nsstate) : nsstate := fold_left ns_load (ns_snapshot s) ns_init.
